@@ -149,9 +149,9 @@ def main():
     run.cov["obligations"] += 1
     if not tie: run.cov["discharged"] += 1
     run.cov["model_tie"] = {"functions_compared": len([n for n in facts.get("shapes", {}) if pid in shapes.props_for(n) and not shapes.WHOLE.match(n.split("#")[0])]), "changed": tie}
-    model = os.path.join(vlib.LEAN, ".lake", "build", "bin", "skinny_model")
-    spec = os.path.join(vlib.LEAN, ".lake", "build", "bin", "skinny_spec")
-    model_ok = os.path.exists(model) and os.path.exists(spec)
+    model, spec = vlib.private_drivers()
+    model_ok = bool(model) and bool(spec)
+    run.model_exe, run.spec_exe = model, spec
     if not model_ok:
         broken.append("model/spec driver does not build")
 
